@@ -361,7 +361,28 @@ pub fn generate(seed: u64, i: u64, tier: u32, methods: &[String]) -> Scenario {
         b.input = Some("p.json".into());
         b.output = pick_sink(&mut r, "o2.json");
         steps.push(b);
-    } else if t < 92 {
+    } else if t < 90 {
+        template = "A-save;hand-edit;B-load";
+        // the saved file is edited by hand in a way that either keeps its meaning (JSON whitespace,
+        // pretty-printing, key order, an unknown extra field) or makes it malformed (trailing bytes)
+        let sink_file = r.chance(55);
+        let mut a = mk("A", gen_env(&mut r, clock));
+        a.save_params = Some("p.json".into());
+        a.output = if sink_file { Some("o1.json".into()) } else { None };
+        steps.push(a);
+        let (kind, pos) = match r.range(0, 9) {
+            0..=2 => ("pad-leading-ws", *r.pick(&[1u64, 100, 3_000, 5_000, 9_000, 20_000, 70_000, 140_000])),
+            3..=4 => ("pad-trailing-ws", *r.pick(&[1u64, 100, 5_000, 70_000])),
+            5..=6 => ("reformat-pretty", 0),
+            _ => ("unknown-field", 0),
+        };
+        edits.push(DiskEdit { before_step: 1, file: "p.json".into(), kind: kind.into(), pos, old: String::new(), new: String::new(), fault: false });
+        clock = jump(&mut r, clock);
+        let mut b = mk("B", gen_env(&mut r, clock));
+        b.input = Some("p.json".into());
+        b.output = if sink_file { Some("o2.json".into()) } else { None };
+        steps.push(b);
+    } else if t < 94 {
         template = "A-save;A-other-overwrites;B-load";
         // two different configurations written to the same files: what is on disk afterwards must
         // be the second one only
